@@ -93,6 +93,79 @@ def handleC11 (op : String) (input impl : Json) : Except String Json := do
           (steps != 0 || (before.all startSet.contains && startSet.all before.contains))
         then [] else ["frontier-holds-ancestors-of-its-starts-once"])
     return reply (Json.mkObj [("after", jNats expected)]) viol.isEmpty viol
+  | "isanc-fault" =>
+    -- one read of a commit fails once during the query: an answer, if one is given, is about the
+    -- whole graph; an error is acceptable only if the failure was really delivered
+    let a ← natFld input "a"
+    let b ← natFld input "b"
+    let fired := (fldD impl "fired" (Json.bool false)).getBool?.toOption.getD false
+    let m := jRes Json.bool (isAncestorOf g a b)
+    let viol : List String :=
+      if resClass impl == "ok" then
+        match (fldD impl "val" Json.null).getBool? with
+        | .ok v => if v == reach g a b then [] else ["isancestor-iff-reachable"]
+        | .error _ => ["bad-impl-output"]
+      else if resClass impl == "panic" then ["no-panic"]
+      else if g.wf && !fired then ["unexpected-error"] else []
+    return reply m (sameRes impl m || (fired && resClass impl == "err")) viol
+  | "walk-fault" =>
+    let starts ← asNatList (← fld input "inputs")
+    let fired := (fldD impl "fired" (Json.bool false)).getBool?.toOption.getD false
+    let anc := (starts.flatMap (ancestors g)).eraseDups
+    let viol : List String :=
+      if resClass impl == "ok" then
+        match asNatList (fldD impl "val" Json.null) with
+        | .ok l =>
+          (if l.eraseDups.length == l.length then [] else ["walk-each-once"]) ++
+          (if anc.all l.contains && l.all anc.contains then [] else ["walk-visits-exactly-ancestors"])
+        | .error _ => ["bad-impl-output"]
+      else if resClass impl == "panic" then ["no-panic"]
+      else if g.wf && !fired then ["unexpected-error"] else []
+    return reply (Json.mkObj [("ancestors", jNats anc)]) viol.isEmpty viol
+  | "seek-fault" =>
+    -- "not found" is a definite answer: only when no common ancestor exists. A base, if one is
+    -- given, is judged as ever (for two inputs: a common ancestor; the clauses refuted for the
+    -- fault-free code, see op "seek", are not repeated here)
+    let inputs ← asNatList (← fld input "inputs")
+    let fired := (fldD impl "fired" (Json.bool false)).getBool?.toOption.getD false
+    let m := jRes jOptNat (seekCommonAncestor g inputs)
+    if resClass impl == "panic" then return reply m false ["no-panic"]
+    let kind := (fldD impl "kind" (Json.str "")).getStr?.toOption.getD ""
+    if resClass impl == "err" && kind != "not-found" then
+      let viol := if g.wf && !fired then ["unexpected-error"] else []
+      return reply m viol.isEmpty viol
+    let implRes : Option (Option Nat) :=
+      if resClass impl == "ok" then
+        match (fldD impl "val" Json.null) with
+        | Json.null => some none
+        | v => match v.getNat? with
+          | .ok n => some (some n)
+          | .error _ => none
+      else some none
+    let viol : List String :=
+      match implRes with
+      | none => ["bad-impl-output"]
+      | some r =>
+        let v := seekVerdict g inputs r
+        (if v.common || inputs.length != 2 then [] else ["seek-result-is-common-ancestor"]) ++
+        (if v.foundIffExists then [] else ["seek-found-iff-exists"])
+    return reply m viol.isEmpty viol
+  | "rmanc-fault" =>
+    let inputs ← asNatList (← fld input "inputs")
+    let fired := (fldD impl "fired" (Json.bool false)).getBool?.toOption.getD false
+    if resClass impl == "panic" then return reply Json.null false ["no-panic"]
+    if resClass impl != "ok" then
+      let kind := (fldD impl "kind" (Json.str "")).getStr?.toOption.getD ""
+      let viol := if kind == "setup" then (if g.wf then ["harness-setup-failed"] else [])
+                  else if g.wf && !fired then ["unexpected-error"] else []
+      return reply Json.null viol.isEmpty viol
+    let v := fldD impl "val" Json.null
+    let before ← asNatList (← fld v "before")
+    let after ← asNatList (← fld v "after")
+    let expected := before.filter (fun q => !(inputs.any (fun s => reach g q s)))
+    let viol : List String :=
+      if after == expected then [] else ["removeancestors-removes-exactly-the-ancestors"]
+    return reply (Json.mkObj [("after", jNats expected)]) viol.isEmpty viol
   | _ => throw s!"unknown op {op}"
 
 end Wrgl.Drv
